@@ -13,6 +13,7 @@ PROPS = {
         "technique": "contract-based deductive verification: Verus on mechanically extracted real functions",
         "components": [
             {"kind": "vx", "unit": "event_queue"},
+            {"kind": "vx", "unit": "uplinks", "rlimit": 120},
         ],
         "assumptions": [
             "generic key type K: Eq/Hash obey vstd's key model and Clone returns an equal value (preconditions of the contracts)",
@@ -81,6 +82,53 @@ PROPS = {
             "lane ids handed to push are registered in the LaneRegistry (ids are never removed)",
             "supply bodies respect Rust's allocation bound (len <= isize::MAX)",
         ],
+        "trusted_base": COMMON_TRUSTED,
+    },
+    "C01": {
+        "level": "proof",
+        "level_text": "Verus proves that the per-remote scheduler and the value backpressure strategy only ever hand out, for a value lane, the newest body pushed for that lane (overwrite on push, exact hand-out on pop, nothing owed is lost while queued, nothing is sent that was not owed), for every busy/idle pattern of the writer",
+        "level_note": "decides the property at the uplink scheduler and backpressure buffer; the agent-side ValueStore/ValueLane and the async task composition (dirty-item retry, byte channel = C12, link bookkeeping = C04/C20) are assumed",
+        "technique": "contract-based deductive verification: Verus on mechanically extracted real functions",
+        "components": [
+            {"kind": "vx", "unit": "uplinks", "rlimit": 120},
+        ],
+        "assumptions": [
+            "handle_event forwards every lane response to every linked remote (async code, not under contract)",
+            "the agent loop retries dirty items until written (async run_agent)",
+        ],
+        "trusted_base": COMMON_TRUSTED,
+    },
+    "C03": {
+        "level": "proof",
+        "level_text": "Verus proves the runtime half of sync: a synced marker pushed behind a busy writer is owed to exactly that lane, is emitted after that lane's pending data (value: the pending body first; map: the whole pending queue is taken along), and leaves every other lane untouched",
+        "level_note": "the agent-side snapshot bookkeeping (WriteQueues/SyncQueue) and the 'remote is linked when the covering broadcast is emitted' caller obligation (observation O1 in DESIGN.md) are not decided by this component",
+        "technique": "contract-based deductive verification: Verus on mechanically extracted real functions",
+        "components": [
+            {"kind": "vx", "unit": "uplinks", "rlimit": 120},
+        ],
+        "assumptions": ["a syncing remote is linked when broadcast events covering its snapshot are emitted (cross-task; reading suggests this can fail for sync-without-link, DESIGN.md O1)"],
+        "trusted_base": COMMON_TRUSTED,
+    },
+    "C07": {
+        "level": "proof",
+        "level_text": "Verus proves the second sentence of the property for the backpressure strategies the downlink runtime uses: a value command is replaced only by a later value (and an empty-bodied value still counts as pending), prepare_write hands out exactly the pending body once; supply-style buffers are exact FIFOs",
+        "level_note": "reduced scope: the consumer-session half (linked/synced/event/unlinked per attached consumer) lives in two async select! loops of downlink/mod.rs with no extractable function boundary and is NOT decided; map command coalescing relies on the MapOperationQueue contract",
+        "technique": "contract-based deductive verification: Verus on mechanically extracted real functions",
+        "components": [
+            {"kind": "vx", "unit": "backpressure"},
+        ],
+        "assumptions": ["consumer sessions of the shared downlink (async select loops) not covered", "Recon key equality (C15) assumed an equivalence"],
+        "trusted_base": COMMON_TRUSTED,
+    },
+    "C14": {
+        "level": "proof",
+        "level_text": "Verus proves that the supply backpressure buffer is an exact FIFO of length-prefixed items (push appends exactly one item, prepare_write removes exactly the oldest, including empty bodies) and that the uplink scheduler emits exactly one queued supply item per pop, re-queues the lane while items remain and never merges or drops one",
+        "level_note": "decides no-drop/no-merge at the runtime buffering points; the agent-side SupplyLane, the command-lane handler invocation and the external-links command buffer are not covered by these components",
+        "technique": "contract-based deductive verification: Verus on mechanically extracted real functions",
+        "components": [
+            {"kind": "vx", "unit": "uplinks", "rlimit": 120},
+        ],
+        "assumptions": ["bodies respect Rust's allocation bound", "read_task / LaneSender flushing (async) not covered"],
         "trusted_base": COMMON_TRUSTED,
     },
 }
